@@ -3,8 +3,14 @@
 //! behaviours enumerated by TLC against the real code (spec -> impl) or records traces of the real code
 //! for validation against the TLA+ specification (impl -> spec).
 
+mod events;
+mod gen;
 mod merge;
+mod parse;
+mod proj;
+mod run;
 mod util;
+mod xmlser;
 
 fn main() {
     let argv: Vec<String> = std::env::args().collect();
@@ -20,6 +26,8 @@ fn main() {
     match argv[1].as_str() {
         "merge-replay" => merge::replay(&args),
         "merge-record" => merge::record(&args),
+        "parser-replay" => parse::replay(&args),
+        "schema-record" => parse::record_schema(&args),
         other => {
             eprintln!("unknown sub-command {}", other);
             std::process::exit(2);
